@@ -1,5 +1,154 @@
 //! Verification hook ops for module `grep` (see mod.rs for the protocol).
+//!
+//! (the calling process is pinned by DELTA_VERIF_HOOK_CALLER, e.g. `git grep -n foo`, `rg foo`; see mod.rs)
+//! grep.patterns                          the five grep line regexes (`Regex::as_str`), source order
+//! grep.parse <xline>                     `parse_grep_line`
+//! grep.parse_raw <xline>                 `parse_raw_grep_line`
+//! grep.parse_regex <idx> <xline>         `_parse_grep_line` with regex number idx (0 = colour, 1..4 = plain, source order of use)
+//! grep.json <xline>                      `ripgrep_json::parse_line`
+//! grep.sections <xcode> <n> <a> <b> ...  `make_style_sections`
+//! grep.expand_sections <tabw> <xcode> <n> <a> <b> ...   `GrepLine::expand_tabs` then `make_style_sections`
+//! grep.code_sections <xraw> <xpath> <num|->              `get_code_style_sections`
+//!
+//! A parsed line is answered as
+//! `ok some <classic|ripgrep> <match|context|contextheader|fileheader|ignore> <xpath> <num|-> <xcode> <-|n a b ...>`
+//! or `ok none`; sections as `ok <k> <m|n><xtext> ...` (m = match style).
+use super::{hex, num, unhex};
+use crate::config::GrepType;
+use crate::handlers::grep::{self, GrepLine, LineType};
+use crate::paint::StyleSectionSpecifier;
+use crate::style::Style;
 
-pub fn handle(op: &str, _args: &[&str]) -> Result<String, String> {
-    Err(format!("unknown op: grep.{op}"))
+fn show_line(g: Option<GrepLine>) -> String {
+    match g {
+        None => "ok none".into(),
+        Some(g) => {
+            let gt = match g.grep_type {
+                GrepType::Classic => "classic",
+                GrepType::Ripgrep => "ripgrep",
+            };
+            let lt = match g.line_type {
+                LineType::Match => "match",
+                LineType::Context => "context",
+                LineType::ContextHeader => "contextheader",
+                LineType::FileHeader => "fileheader",
+                LineType::Ignore => "ignore",
+            };
+            let n = match g.line_number {
+                Some(n) => n.to_string(),
+                None => "-".into(),
+            };
+            let subs = match &g.submatches {
+                None => "-".to_string(),
+                Some(v) => {
+                    let mut s = v.len().to_string();
+                    for (a, b) in v {
+                        s.push_str(&format!(" {a} {b}"));
+                    }
+                    s
+                }
+            };
+            format!("ok some {gt} {lt} {} {n} {} {subs}", hex(&g.path), hex(&g.code))
+        }
+    }
+}
+
+fn styles() -> (Style, Style) {
+    let miss = Style::new();
+    let hit = Style {
+        is_emph: true,
+        ..miss
+    };
+    (hit, miss)
+}
+
+fn show_sections(spec: Option<StyleSectionSpecifier>) -> String {
+    let (hit, _) = styles();
+    match spec {
+        None => "ok none".into(),
+        Some(StyleSectionSpecifier::Style(_)) => "ok style".into(),
+        Some(StyleSectionSpecifier::StyleSections(v)) => {
+            let mut s = format!("ok {}", v.len());
+            for (st, text) in v {
+                s.push(' ');
+                s.push(if st == hit { 'm' } else { 'n' });
+                s.push_str(&hex(text));
+            }
+            s
+        }
+    }
+}
+
+fn spans(args: &[&str]) -> Result<Vec<(usize, usize)>, String> {
+    let n = num(args.first().ok_or("missing span count")?)?;
+    if args.len() != 1 + 2 * n {
+        return Err("span count does not match".into());
+    }
+    (0..n)
+        .map(|i| Ok((num(args[1 + 2 * i])?, num(args[2 + 2 * i])?)))
+        .collect()
+}
+
+pub fn handle(op: &str, args: &[&str]) -> Result<String, String> {
+    match (op, args) {
+        ("patterns", []) => Ok(format!(
+            "ok {}",
+            (0..5)
+                .map(|i| hex(grep::verif_regex(i).as_str()))
+                .collect::<Vec<_>>()
+                .join(" ")
+        )),
+        ("parse", [l]) => {
+            let l = unhex(l)?;
+            Ok(show_line(grep::parse_grep_line(&l)))
+        }
+        ("parse_raw", [l]) => {
+            let l = unhex(l)?;
+            Ok(show_line(grep::parse_raw_grep_line(&l)))
+        }
+        ("parse_regex", [i, l]) => {
+            let l = unhex(l)?;
+            let i = num(i)?;
+            if i > 4 {
+                return Err("regex index".into());
+            }
+            Ok(show_line(grep::_parse_grep_line(grep::verif_regex(i), &l)))
+        }
+        ("json", [l]) => {
+            let l = unhex(l)?;
+            Ok(show_line(grep::verif_ripgrep_json_parse_line(&l)))
+        }
+        ("sections", [code, rest @ ..]) => {
+            let code = unhex(code)?;
+            let sp = spans(rest)?;
+            let (hit, miss) = styles();
+            Ok(show_sections(Some(grep::verif_make_style_sections(
+                &code, &sp, hit, miss,
+            ))))
+        }
+        ("expand_sections", [w, code, rest @ ..]) => {
+            let code = unhex(code)?;
+            let sp = spans(rest)?;
+            let (hit, miss) = styles();
+            let (code2, sp2) = grep::verif_expand_tabs(&code, sp, num(w)?);
+            let mut out = format!("{} {}", hex(&code2), sp2.len());
+            for (a, b) in &sp2 {
+                out.push_str(&format!(" {a} {b}"));
+            }
+            let sec = show_sections(Some(grep::verif_make_style_sections(
+                &code2, &sp2, hit, miss,
+            )));
+            Ok(format!("ok {out} | {}", &sec[3..]))
+        }
+        ("code_sections", [raw, path, n]) => {
+            let raw = unhex(raw)?;
+            let path = unhex(path)?;
+            let n = if *n == "-" { None } else { Some(num(n)?) };
+            let (hit, miss) = styles();
+            Ok(show_sections(grep::verif_get_code_style_sections(
+                &raw, hit, miss, &path, n,
+            )))
+        }
+        _ => Err(format!("unknown op or arity: grep.{op}")),
+    }
 }
